@@ -328,7 +328,28 @@ func (c *CastExpression) SQL() string {
 	if c == nil {
 		return ""
 	}
-	return fmt.Sprintf("CAST(%s AS %s)", exprSQL(c.Expr), c.Type)
+	// A chain of nested casts (a::int::text ... parses into casts of casts) is written into one
+	// builder; formatting the operand's text into a new string at every level copies it once per cast.
+	chain := []*CastExpression{c} // outermost first
+	for {
+		inner, ok := chain[len(chain)-1].Expr.(*CastExpression)
+		if !ok || inner == nil {
+			break
+		}
+		chain = append(chain, inner)
+	}
+	sb := getBuilder()
+	defer putBuilder(sb)
+	for range chain {
+		sb.WriteString("CAST(")
+	}
+	sb.WriteString(exprSQL(chain[len(chain)-1].Expr))
+	for i := len(chain) - 1; i >= 0; i-- {
+		sb.WriteString(" AS ")
+		sb.WriteString(chain[i].Type)
+		sb.WriteString(")")
+	}
+	return sb.String()
 }
 
 func (c *CaseExpression) SQL() string {
@@ -530,11 +551,27 @@ func (a *ArraySubscriptExpression) SQL() string {
 	if a == nil {
 		return ""
 	}
-	s := operandSQL(a.Array, precPrimary)
-	for _, idx := range a.Indices {
-		s += "[" + exprSQL(idx) + "]"
+	// Nested subscripts (a[1][2] ... parses into a subscript of a subscript) are written into one
+	// builder from the innermost array outwards.
+	chain := []*ArraySubscriptExpression{a} // outermost first
+	for {
+		inner, ok := chain[len(chain)-1].Array.(*ArraySubscriptExpression)
+		if !ok || inner == nil {
+			break
+		}
+		chain = append(chain, inner)
 	}
-	return s
+	sb := getBuilder()
+	defer putBuilder(sb)
+	sb.WriteString(operandSQL(chain[len(chain)-1].Array, precPrimary))
+	for i := len(chain) - 1; i >= 0; i-- {
+		for _, idx := range chain[i].Indices {
+			sb.WriteString("[")
+			sb.WriteString(exprSQL(idx))
+			sb.WriteString("]")
+		}
+	}
+	return sb.String()
 }
 
 func (a *ArraySliceExpression) SQL() string {
